@@ -4,7 +4,7 @@
 out=$1; k=$2; pkg=$3; tname=$4; name=$5
 wt=/tmp/wt_val_$$
 git -C /repo worktree add --detach $wt HEAD -q || exit 2
-cp $out/demo${k}_test.go $wt/$pkg/zz_demo${k}_test.go
+mkdir -p $wt/$pkg; cp $out/demo${k}_test.go $wt/$pkg/zz_demo${k}_test.go
 cd $wt
 export GOFLAGS=-mod=mod GOPROXY=off
 go test $VAL_EXTRA -count=1 -run "$tname" ./$pkg/ > /tmp/val_clean.log 2>&1; rc_clean=$?
